@@ -14,7 +14,7 @@ Inductive kop :=
 
 Inductive op :=
 | Scenario (hist : list (kop * fault)) (faulted : kop) (f : fault) (follow : kop)
-| Sched (hist : list (kop * fault)) (rid : N) (progs : list (list wop)) (sched : list nat).
+| Sched (hist : list (kop * fault)) (progs : list (list hop)) (sched : list (nat * N)).
 
 (** ** encoding of observations: sequences of 64-bit little-endian numbers *)
 Definition encN (n : N) : bytes := le_enc 8 n.
@@ -130,24 +130,49 @@ Definition run_scenario (hist : list (kop * fault)) (o : kop) (f : fault) (follo
     end in
   XOk [outcome; view; enc_storage st1; lk; fo; enc_storage st2].
 
-(** C17 schedule: history; every writer opens ring [rid] (fresh, serially), then the
-    programs run under the schedule *)
-Definition run_sched (hist : list (kop * fault)) (rid : N) (progs : list (list wop)) (sched : list nat) : expected :=
+(** C17 schedule: history; then handles WITHOUT a key ring object (the rings they open may not
+    exist yet) run their programs under the granted sequence of steps. Every granted step carries
+    the back-end call the implementation made ([call_tag]): the replay counts the steps where the
+    model's handle is not about to make that very call (or cannot step), so a change of the lock
+    scope of an operation is a disagreement even when the final state happens to be the same. *)
+Definition call_tag (c : bcall) : N :=
+  match c with
+  | BLock => 0 | BUnlock => 1 | BRLock => 2 | BRUnlock => 3
+  | BGet _ => 4 | BPut _ _ => 5 | BRemove _ => 6 | BRename _ _ => 7 | BList => 8
+  | _ => 9
+  end%N.
+
+Fixpoint grun_tr (g : gstate) (sched : list (nat * N)) (bad : nat) : gstate * nat :=
+  match sched with
+  | [] => (g, bad)
+  | (i, tag) :: rest =>
+      let agree :=
+        match nth_error (g_hs g) i with
+        | Some h => match head_call (settled h) with Some c => N.eqb (call_tag c) tag | None => false end
+        | None => false
+        end in
+      match gstep g i with
+      | Some g' => grun_tr g' rest (if agree then bad else S bad)
+      | None => grun_tr g rest (S bad)
+      end
+  end.
+
+Definition enc_view (hr : option hring) : bytes :=
+  match hr with Some h => encN 1 ++ enc_ring (h_data h) | None => encN 0 end.
+
+Definition obs_handle (h : handle) : bytes :=
+  enc_nat (length (hd_todo (settled h))) ++ flat_map enc_res (rev (hd_out (settled h))) ++ enc_view (hd_ring (settled h)).
+
+Definition run_sched (hist : list (kop * fault)) (progs : list (list hop)) (sched : list (nat * N)) : expected :=
   let '(st0, _) := run_hist [] no_slots hist in
-  let '(st1, hs) :=
-    fold_left (fun (acc : storage * list handle) (p : list wop) =>
-                 match exec (open_key_ring_rw rid) None (fst acc) 0 with
-                 | Ret (_, h) st' _ => (st', snd acc ++ [mk_handle h p None []])
-                 | Crash st' => (st', snd acc)
-                 end) progs (st0, []) in
-  let g := grun (mk_g st1 LFree hs) sched in
-  XOk (enc_storage (g_st g) ::
-       map (fun h => enc_nat (length (hd_todo (settled h))) ++ flat_map enc_res (rev (hd_out (settled h))) ++ enc_ring (h_data (hd_ring (settled h)))) (g_hs g)).
+  let hs := map (fun p => mk_handle None p None []) progs in
+  let '(g, bad) := grun_tr (mk_g st0 LFree hs) sched 0 in
+  XOk (enc_nat bad :: enc_storage (g_st g) :: map obs_handle (g_hs g)).
 
 Definition run (o : op) : expected :=
   match o with
   | Scenario hist x f follow => run_scenario hist x f follow
-  | Sched hist rid progs sched => run_sched hist rid progs sched
+  | Sched hist progs sched => run_sched hist progs sched
   end.
 
 Fixpoint list_bytes_eqb (a b : list bytes) : bool :=
